@@ -2051,7 +2051,8 @@ class FuncEmitter:
                     raise Unsupported('landingpad filter')
             # selector: index (1-based) of the first matching catch clause; 0 for cleanup only.
             chain = ' '.join('if (!vp_s) vp_s = vp_lp_clause(%dUL);' % x for x in catches)
-            body.append('  { uint32_t vp_s = 0; %s %s.f1 = vp_s; %s.f0 = vp_exc_object(); }' % (chain, D, D))
+            # the landing pad takes the in-flight exception: clean-up calls made before __cxa_begin_catch / resume must not see it as pending
+            body.append('  { uint32_t vp_s = 0; %s %s.f1 = vp_s; %s.f0 = vp_exc_land(); }' % (chain, D, D))
             return
         if op in ('call', 'invoke', 'tail', 'musttail', 'notail'):
             if op in ('tail', 'musttail', 'notail'):
